@@ -42,7 +42,7 @@ fn main() {
     let seed = std::env::var("VERIF_SEED").ok().and_then(|s| s.parse::<u64>().ok()).unwrap_or(1);
     let budget = Duration::from_secs(budget.unwrap_or(match tier {
         Tier::Quick => 150,
-        Tier::Thorough => 3000,
+        Tier::Thorough => 5400,
     }));
     let o = Opts { tier, seed, replay, budget, extra };
     let code = match bpverif::evidence::guarded(|| bpverif::props::dispatch(&id, &o)) {
